@@ -331,7 +331,10 @@ def run(r: core.Run, mode, prop_module, what, known_ops_key="ops"):
                 k += 1
                 if k >= 3:
                     break
-        if mism:
+        pfm = [i for i, l in enumerate(model) if l == "T printed-form-mismatch"]
+        if pfm:
+            tie = core.TieBroken("the model's RFC3339Nano / predicate printer (Model/TimeFmt.lean) and Go's disagree", ops[pfm[0]][:400])
+        elif mism:
             i = mism[0]
             tie = core.TieBroken(f"query correspondence ({mode}): model and implementation disagree on {len(mism)} queries",
                                  f"first: {text_of(ops[i])!r} impl={impl[i][:300]!r} model={model[i][:300]!r}")
